@@ -1,4 +1,5 @@
-import StraxModel.Lemmas.Storage
+import StraxModel.Lemmas.StorageRechunk
+import StraxModel.Props.C07
 /-
   Property C03 — saving then loading returns the same rows, ranges and consistent metadata.
 
@@ -88,26 +89,11 @@ theorem roundtrip_empty_source (a0 : Int) (re : Bool) (hdr : Header) :
 
 /-! ### round trip with rechunking -/
 
-/-
-  Full statement (DESIGN.md §6 C03):
-
-    theorem roundtrip_rechunk (hne : s ≠ []) (hl : lawAbidingB s) (hr : s.all (runOkB rid))
-        (ht : ∀ c ∈ s, 1 ≤ c.target) :
-      ∃ md files loaded, saveAll a0 true hdr s = .ok (md, files) ∧ loadAll md files = .ok loaded ∧
-        loaded.flatMap (·.rows) = s.flatMap (·.rows) ∧
-        (boundaries loaded).head? = (boundaries s).head? ∧ (boundaries loaded).getLast? = (boundaries s).getLast? ∧
-        lawAbidingB loaded ∧ boundaryRuleB s loaded
-
-  Proved here: everything that belongs to storage.  `roundtrip_rechunk_partial` shows that the
-  loader returns EXACTLY the rechunker's output stream (modulo `restore`), so rows, overall
-  range, lawfulness and the boundary rule of the loaded stream are those of
-  `rechunkAll a0 ⟨true, _, none⟩ s`.  Missing: the C07 stream theorem (`Strax.C07.rechunk_stream`,
-  being proved in Lemmas/ChunkAlg.lean: on a law-abiding stream with targets ≥ 1 the rechunker
-  succeeds, conserves rows and range, its output is law-abiding with valid chunks, and every new
-  boundary lies strictly inside a row-free gap).  Its conclusions are the explicit hypotheses
-  `hre`, `hne`, `hst` below; with it they follow from `lawAbidingB s`.
--/
-theorem roundtrip_rechunk_partial (a0 : Int) (hdr : Header) (rid : String) (s out : List Chunk)
+/-- For EVERY input on which the rechunker succeeds with valid output chunks, the loader returns
+exactly the rechunker's output stream (modulo `restore`): rows, boundaries, lawfulness and the
+boundary rule of what is loaded are those of `rechunkAll a0 ⟨true, _, none⟩ s`.  This is the whole
+storage part of the rechunking round trip, for any run (super-runs included). -/
+theorem loaded_is_rechunker_output (a0 : Int) (hdr : Header) (rid : String) (s out : List Chunk)
     (hre : rechunkAll a0 ⟨true, hdr.runId.startsWith "_", none⟩ s = .ok out)
     (hne : out ≠ []) (hst : out.all (storableB rid) = true) :
     ∃ md files loaded, saveAll a0 true hdr s = .ok (md, files) ∧ loadAll md files = .ok loaded ∧
@@ -121,6 +107,61 @@ theorem roundtrip_rechunk_partial (a0 : Int) (hdr : Header) (rid : String) (s ou
     boundaryRuleB_restore hdr rid s out⟩
   · rw [saveAll_eq, hre]; rfl
   · exact loadAll_saved hdr rid out hne (fun c hc => List.all_eq_true.1 hst c hc)
+
+/-- `roundtrip_rechunk` (DESIGN.md §6 C03), by composing the storage theorems with the C07 stream
+theorem `Strax.C07.rechunk_stream`: a C07-law-abiding stream (`Strax.LawAbiding`: every chunk
+well-formed — non-negative start, rows sorted, of positive duration and inside the chunk — without
+run annotations, adjacent ranges, one data type and one run) of a plain run, with targets of at
+least one row, saved WITH rechunking (the `argmin` constant being the one in the source today)
+and loaded back: both steps succeed, the rows are the rows written in the same order, the
+overall range is the one written, the loaded stream obeys the laws of chunking and carries the
+run id, and every boundary of the loaded stream is a boundary of the written one or lies
+strictly inside a row-free gap.  Super-run ids are outside (C07's `LawAbiding` excludes run
+annotations); `loaded_is_rechunker_output` covers them relative to the rechunker. -/
+theorem roundtrip_rechunk (hdr : Header) (rid : String) (s : List Chunk)
+    (hne : s ≠ []) (hl : Strax.LawAbiding s = true) (ht : ∀ c ∈ s, 1 ≤ c.target)
+    (hrid : s.head?.bind (·.runId) = some rid) (hplain : rid.startsWith "_" = false)
+    (hmd : hdr.runId.startsWith "_" = false) :
+    ∃ md files loaded,
+      saveAll Generated.getSplitsArgmin0 true hdr s = .ok (md, files) ∧ loadAll md files = .ok loaded ∧
+      loaded.flatMap (·.rows) = s.flatMap (·.rows) ∧
+      loaded.head?.map (·.start) = s.head?.map (·.start) ∧
+      loaded.getLast?.map (·.stop) = s.getLast?.map (·.stop) ∧
+      lawAbidingB loaded = true ∧ (∀ c ∈ loaded, c.runId = some rid) ∧
+      boundaryRuleB s loaded = true := by
+  obtain ⟨out, hre, hrows, hstart, hstop, hlaw, hrun, _, hb⟩ := Strax.C07.rechunk_stream s hl ht
+  obtain ⟨a, l, rfl⟩ : ∃ a l, s = a :: l := by
+    cases s with
+    | nil => exact absurd rfl hne
+    | cons a l => exact ⟨a, l, rfl⟩
+  simp only [List.head?_cons, Option.bind_some] at hrid
+  obtain ⟨b, m, rfl⟩ : ∃ b m, out = b :: m := by
+    cases out with
+    | nil => simp at hstart
+    | cons b m => exact ⟨b, m, rfl⟩
+  simp only [List.head?_cons, Option.map_some, Option.some.injEq] at hstart hrun
+  have hall := lawAbiding_all b m hlaw
+  have hst : (b :: m).all (storableB rid) = true := by
+    rw [List.all_eq_true]
+    intro c hc
+    have := hall c hc
+    exact storable_of_good this.1 (by rw [this.2, hrun, hrid]) hplain
+  obtain ⟨md, files, loaded, h1, h2, h3, h4, _, h6, h7⟩ :=
+    loaded_is_rechunker_output Generated.getSplitsArgmin0 hdr rid (a :: l) (b :: m)
+      (by rw [hmd]; exact hre) (by simp) hst
+  refine ⟨md, files, loaded, h1, h2, by rw [h4, hrows], ?_, ?_, ?_, ?_, ?_⟩
+  · subst h3; simp [restore, hstart]
+  · subst h3
+    rw [List.getLast?_map, ← hstop]
+    cases (b :: m).getLast? <;> simp [restore]
+  · rw [h6]; exact lawAbidingB_of_LawAbiding _ hlaw
+  · subst h3
+    intro c hc
+    simp only [List.mem_map] at hc
+    obtain ⟨c0, hc0, rfl⟩ := hc
+    have := hall c0 hc0
+    simp [restore, this.2, hrun, hrid]
+  · rw [h7]; exact boundaryRuleB_of_prop _ _ hb
 
 /-! ### metadata agrees with the files (all inputs, rechunking on or off) -/
 
@@ -229,7 +270,7 @@ example : storableB "_s" exSuper = true := by
 example : restorableRuns (some [⟨"b", 0, 0⟩, ⟨"a", 0, 5⟩]) = false := by
   simp [restorableRuns, jsonRuns, sortRuns, runsOverlap, List.mergeSort, List.MergeSort.Internal.splitInTwo]
 
-/-- the hypotheses of `roundtrip_rechunk_partial` on a concrete stream: two chunks with a gap of
+/-- the hypotheses of `loaded_is_rechunker_output` on a concrete stream: two chunks with a gap of
 3991 ns between their rows, target one row — the rechunker moves the boundary from 10 to 3500,
 strictly inside the row-free gap -/
 def exS : List Chunk :=
@@ -243,6 +284,9 @@ def exOut : List Chunk :=
     { dataType := "d", kind := "k", runId := some "r", start := 3500, stop := 5000,
       rows := [⟨4000, 4001, 2⟩], subruns := none, superrun := [⟨"r", 3500, 5000⟩], target := 1 } ]
 example : lawAbidingB exS = true ∧ exS.all (runOkB "r") = true := by decide +kernel
+/-- … and those of `roundtrip_rechunk` -/
+example : exS ≠ [] ∧ Strax.LawAbiding exS = true ∧ (∀ c ∈ exS, 1 ≤ c.target) ∧
+    exS.head?.bind (·.runId) = some "r" ∧ ("r" : String).startsWith "_" = false := by decide +kernel
 example : rechunkAll (-1) ⟨true, ("r" : String).startsWith "_", none⟩ exS = .ok exOut :=
   ok_of_toOption (by decide +kernel)
 example : exOut ≠ [] ∧ exOut.all (storableB "r") = true ∧ lawAbidingB exOut = true ∧
